@@ -1,4 +1,4 @@
-use anyhow::Result;
+use anyhow::{bail, Result};
 use indexmap::IndexMap;
 use duke::tree::class::{ObjClassName, ObjClassNameSlice};
 use crate::nest::Nests;
@@ -8,8 +8,8 @@ use quill::tree::mappings::{ClassMapping, ClassNowodeMapping, FieldMapping, Fiel
 pub(crate) fn apply_nests_to_mappings<A, B>(mappings: Mappings<2, (A, B)>, nests: &Nests<A>) -> Result<Mappings<2, (A, B)>> {
 	let mapped_nests = crate::nests_mapper_run::map_nests(nests, &mappings)?;
 
-	let translator = MyRemapper::new(nests, true);
-	let mapped_translator = MyRemapper::new(&mapped_nests, true);
+	let translator = MyRemapper::new(nests, true)?;
+	let mapped_translator = MyRemapper::new(&mapped_nests, true)?;
 
 	Ok(Mappings {
 		info: mappings.info,
@@ -57,8 +57,8 @@ pub(crate) fn apply_nests_to_mappings<A, B>(mappings: Mappings<2, (A, B)>, nests
 pub(crate) fn undo_nests_to_mappings<A, B>(mappings: Mappings<2, (A, B)>, nests: &Nests<A>) -> Result<Mappings<2, (A, B)>> {
 	let mapped_nests = Nests::<B>::default();
 
-	let translator = MyRemapper::new(nests, false);
-	let mapped_translator = MyRemapper::new(&mapped_nests, false);
+	let translator = MyRemapper::new(nests, false)?;
+	let mapped_translator = MyRemapper::new(&mapped_nests, false)?;
 
 	Ok(Mappings {
 		info: mappings.info,
@@ -117,26 +117,31 @@ pub(crate) fn undo_nests_to_mappings<A, B>(mappings: Mappings<2, (A, B)>, nests:
 struct MyRemapper(IndexMap<ObjClassName, ObjClassName>);
 
 impl MyRemapper {
-	fn new<A>(nests: &Nests<A>, apply: bool) -> Self {
+	fn new<A>(nests: &Nests<A>, apply: bool) -> Result<Self> {
 		let map = nests.all.iter()
 			.map(|(class_name, nest)| {
-				fn build_translation<A>(nests: &Nests<A>, class_name: &ObjClassName) -> ObjClassName {
+				// `depth` is the number of nests passed on the way up the chain of enclosing classes. A chain that
+				// passes more nests than the table has passes one of them twice: the table nests a class in itself.
+				fn build_translation<A>(nests: &Nests<A>, class_name: &ObjClassName, depth: usize) -> Result<ObjClassName> {
 					if let Some(nest) = nests.all.get(class_name) {
-						let a = build_translation(nests, &nest.encl_class_name);
-						ObjClassName::from_inner_class(a, &nest.inner_name)
+						if depth > nests.all.len() {
+							bail!("cyclic nests table: class {class_name:?} is (transitively) enclosed by itself");
+						}
+						let a = build_translation(nests, &nest.encl_class_name, depth + 1)?;
+						Ok(ObjClassName::from_inner_class(a, &nest.inner_name))
 					} else {
-						class_name.to_owned()
+						Ok(class_name.to_owned())
 					}
 				}
 
-				let a = build_translation(nests, &nest.encl_class_name);
+				let a = build_translation(nests, &nest.encl_class_name, 1)?;
 				let value = ObjClassName::from_inner_class(a, &nest.inner_name);
 
-				(class_name.to_owned(), value)
+				Ok((class_name.to_owned(), value))
 			})
-			.map(|(k, v)| if apply { (k, v) } else { (v, k) } )
-			.collect();
-		MyRemapper(map)
+			.map(|r: Result<_>| r.map(|(k, v)| if apply { (k, v) } else { (v, k) }))
+			.collect::<Result<_>>()?;
+		Ok(MyRemapper(map))
 	}
 }
 
